@@ -46,8 +46,11 @@ theorem Step.local_congr (s : Step) (sh1 sh2 : Shared) (rest : List Step) (t : T
     have hb := Nm.eval_congr b sh1 sh2 (fun c hc => h c (by simp [Step.readCells, hc]))
     simp only [Step.local, ha, hb]
   | check n ok =>
-    have := Nm.eval_congr n sh1 sh2 (fun c hc => h c (by simpa [Step.readCells] using hc))
-    simp only [Step.local, this]
+    cases ok with
+    | true => rfl
+    | false =>
+      have := Nm.eval_congr n sh1 sh2 (fun c hc => h c (by simpa [Step.readCells] using hc))
+      simp only [Step.local, this]
   | _ => rfl
 
 /-- a step performs the same write from any two stores that agree on the cells it reads -/
@@ -527,7 +530,7 @@ theorem step_load_cell {P : Nat → Prop} {c : Nat} (h : P c) :
 
 theorem step_check_cell {P : Nat → Prop} {c : Nat} (ok : Bool) (h : P c) :
     (∀ x ∈ (Step.check (.cell c) ok).writeCells, P x) ∧ (∀ x ∈ (Step.check (.cell c) ok).readCells, P x) := by
-  simp [Step.writeCells, Step.readCells, Nm.cells, h]
+  cases ok <;> simp [Step.writeCells, Step.readCells, Nm.cells, h]
 
 theorem step_private {P : Nat → Prop} {s : Step} (hw : s.writeCells = []) (hr : s.readCells = []) :
     (∀ x ∈ s.writeCells, P x) ∧ (∀ x ∈ s.readCells, P x) := by
@@ -712,7 +715,9 @@ theorem Step.rename_writeCells (f : Nat → Nat) (s : Step) : (s.rename f).write
   cases s <;> rfl
 
 theorem Step.rename_readCells (f : Nat → Nat) (s : Step) : (s.rename f).readCells = s.readCells.map f := by
-  cases s <;> simp [Step.rename, Step.readCells, Nm.rename_cells]
+  cases s with
+  | check n ok => cases ok <;> simp [Step.rename, Step.readCells, Nm.rename_cells]
+  | _ => simp [Step.rename, Step.readCells, Nm.rename_cells]
 
 theorem writeCells_rename (f : Nat → Nat) (p : List Step) : ∀ c ∈ writeCells (renameProg f p), ∃ c0, c = f c0 := by
   intro c hc
@@ -771,5 +776,148 @@ theorem instFrom_congr (priv priv' : Nat → Bool) (h : ∀ c, priv c = priv' c)
     instFrom priv N k progs = instFrom priv' N k progs := by
   have : priv = priv' := funext h
   rw [this]
+
+end Typedpy.Sched
+
+namespace Typedpy.Sched
+
+/-! ### renaming cells with an injective map does not change what a program computes -/
+
+/-- store `sh'` holds under the renamed cell what `sh` holds under the original one -/
+def StoreRel (f : Nat → Nat) (sh sh' : Shared) : Prop := ∀ c, sh' (f c) = sh c
+
+theorem Nm.rename_eval (f : Nat → Nat) (sh sh' : Shared) (h : StoreRel f sh sh') (n : Nm) :
+    (n.rename f).eval sh' = n.eval sh := by
+  cases n with
+  | const s => rfl
+  | cell c => exact h c
+  | cellSuf c suf => simp only [Nm.rename, Nm.eval, h c]
+
+def TState.rename (f : Nat → Nat) (t : TState) : TState := { t with prog := renameProg f t.prog }
+
+theorem Step.rename_local (f : Nat → Nat) (sh sh' : Shared) (h : StoreRel f sh sh') (s : Step) (rest : List Step)
+    (t : TState) :
+    (s.rename f).local sh' (renameProg f rest) (t.rename f) = (s.local sh rest t).rename f := by
+  cases s with
+  | write c n => rfl
+  | newTemp => rfl
+  | store n v ok =>
+    simp only [Step.rename, Step.local, Nm.rename_eval f sh sh' h, TState.rename]
+    split <;> rfl
+  | load n =>
+    simp only [Step.rename, Step.local, Nm.rename_eval f sh sh' h, TState.rename]
+    split <;> rfl
+  | move a b =>
+    simp only [Step.rename, Step.local, Nm.rename_eval f sh sh' h, TState.rename]
+    split <;> rfl
+  | check n ok =>
+    simp only [Step.rename, Step.local, Nm.rename_eval f sh sh' h, TState.rename]
+    split <;> rfl
+  | emit v => rfl
+
+theorem Step.rename_shared (f : Nat → Nat) (hf : ∀ a b, f a = f b → a = b) (sh sh' : Shared) (h : StoreRel f sh sh')
+    (s : Step) : StoreRel f (s.shared sh) ((s.rename f).shared sh') := by
+  cases s with
+  | write c n =>
+    intro x
+    simp only [Step.rename, Step.shared, Shared.set, Nm.rename_eval f sh sh' h]
+    by_cases hx : x = c
+    · simp [hx]
+    · have : f x ≠ f c := fun e => hx (hf _ _ e)
+      simp [hx, this, h x]
+  | _ => exact h
+
+theorem stepT_rename (f : Nat → Nat) (hf : ∀ a b, f a = f b → a = b) (sh sh' : Shared) (h : StoreRel f sh sh')
+    (t : TState) :
+    StoreRel f (stepT sh t).1 (stepT sh' (t.rename f)).1 ∧ (stepT sh' (t.rename f)).2 = (stepT sh t).2.rename f := by
+  unfold stepT
+  cases he : t.err with
+  | some e => simp only [TState.rename, he]; exact ⟨h, trivial⟩
+  | none =>
+    cases hp : t.prog with
+    | nil => simp only [TState.rename, he, hp, renameProg, List.map_nil]; exact ⟨h, by simp⟩
+    | cons s rest =>
+      have hpr : (t.rename f).prog = s.rename f :: renameProg f rest := by simp [TState.rename, hp, renameProg]
+      have her : (t.rename f).err = none := by simp [TState.rename, he]
+      simp only [hpr, her]
+      exact ⟨Step.rename_shared f hf sh sh' h s, Step.rename_local f sh sh' h s rest t⟩
+
+theorem alone_rename (f : Nat → Nat) (hf : ∀ a b, f a = f b → a = b) : ∀ (n : Nat) (sh sh' : Shared) (t : TState),
+    StoreRel f sh sh' → (alone sh' (t.rename f) n).2 = (alone sh t n).2.rename f := by
+  intro n
+  induction n with
+  | zero => intro sh sh' t _; rfl
+  | succ n ih =>
+    intro sh sh' t h
+    obtain ⟨h1, h2⟩ := stepT_rename f hf sh sh' h t
+    rw [alone_succ, alone_succ, h2]
+    exact ih _ _ _ h1
+
+/-- a program whose cells are renamed by an injective map computes, alone, exactly what the original computes -/
+theorem rename_sequential (f : Nat → Nat) (hf : ∀ a b, f a = f b → a = b) (sh sh' : Shared) (h : StoreRel f sh sh')
+    (p : List Step) : sequentialResult sh' (renameProg f p) = sequentialResult sh p := by
+  unfold sequentialResult
+  have hl : (renameProg f p).length = p.length := by simp [renameProg]
+  have hi : TState.init (renameProg f p) = (TState.init p).rename f := rfl
+  rw [hl, hi, alone_rename f hf p.length sh sh' _ h]
+  simp [TState.result, TState.rename, renameProg]
+
+theorem cellMap_injective (priv : Nat → Bool) {N i : Nat} (hN : i < N) : ∀ a b, cellMap priv N i a = cellMap priv N i b → a = b := by
+  intro a b h
+  unfold cellMap privCell sharedCell at h
+  have hpos : 0 < N := by omega
+  by_cases ha : priv a <;> by_cases hb : priv b <;> simp only [ha, hb, if_true, if_false, Bool.false_eq_true] at h
+  · have h1 : a * N = b * N := by omega
+    exact Nat.eq_of_mul_eq_mul_right hpos h1
+  · omega
+  · omega
+  · omega
+
+
+theorem instStore_shared (N : Nat) (sh : Shared) (c : Nat) : instStore N sh (sharedCell c) = sh c := by
+  unfold instStore sharedCell
+  have h1 : 2 * c % 2 = 0 := by omega
+  have h2 : 2 * c / 2 = c := by omega
+  simp [h1, h2]
+
+theorem instStore_priv {N i : Nat} (hi : i < N) (sh : Shared) (c : Nat) : instStore N sh (privCell N i c) = sh c := by
+  unfold instStore privCell
+  have h1 : (2 * (c * N + i) + 1) % 2 ≠ 0 := by omega
+  have h2 : (2 * (c * N + i) + 1) / 2 = c * N + i := by omega
+  have hpos : 0 < N := by omega
+  have h3 : (c * N + i) / N = c := by
+    rw [Nat.add_comm, Nat.add_mul_div_right _ _ hpos, Nat.div_eq_of_lt hi, Nat.zero_add]
+  simp [h1, h2, h3]
+
+end Typedpy.Sched
+
+namespace Typedpy.Sched
+
+/-! ### flat OneOf / NotField read nothing effectively -/
+
+theorem oneOfFrom_reads (n : String) : ∀ os : List (Nat × Bool), readCells (progOneOfFrom (.const n) os) = [] := by
+  intro os
+  induction os with
+  | nil => rfl
+  | cons o rest ih =>
+    obtain ⟨c, ok⟩ := o
+    simp only [readCells] at ih
+    simp [readCells, progOneOfFrom, Step.readCells, Nm.cells, ih]
+
+theorem oneOf_reads (n : String) (v : Int) (os : List (Nat × Bool)) : readCells (progOneOf (.const n) v os) = [] := by
+  have h := oneOfFrom_reads n os
+  simp only [readCells] at h
+  simp only [progOneOf, readCells, List.flatMap_append, h, List.nil_append]
+  split <;> simp [Step.readCells, Nm.cells]
+
+theorem notField_reads (n : String) (v : Int) : ∀ os : List (Nat × Bool), readCells (progNotField (.const n) v os) = [] := by
+  intro os
+  induction os with
+  | nil => simp [readCells, progNotField, Step.readCells, Nm.cells]
+  | cons o rest ih =>
+    obtain ⟨c, ok⟩ := o
+    simp only [readCells] at ih
+    cases ok <;> simp [readCells, progNotField, Step.readCells, Nm.cells, ih]
+
 
 end Typedpy.Sched
